@@ -208,9 +208,9 @@ def gen_problem(cfg, backward=False):
     for i in range(n):
         if P.leaf[i]:
             if not (cfg.get('est_none') and choose(f'en{i}', 2)):
-                P.est[i] = fresh_real(f'est{i}', 0, E)
+                P.est[i] = fresh_real(f'est{i}', 0, E, grid=cfg.get('grid', 4))
             if not (cfg.get('spent_none', True) and choose(f'sn{i}', 2)):
-                P.spent[i] = fresh_real(f'spent{i}', 0, E)
+                P.spent[i] = fresh_real(f'spent{i}', 0, E, grid=cfg.get('grid', 4))
             if cfg.get('min_start') and (i == cfg.get('dates_on', i)) and choose(f'hasms{i}', 2):
                 offs = cfg.get('min_start_offsets', [-1, 1, 3])
                 P.min_start[i] = dt(P.start_day + offs[choose(f'msd{i}', len(offs))], fresh_int(f'ms_us{i}', 0, DAY_US - 1))
